@@ -51,8 +51,8 @@ RoundTrip(sk1, d) == /\ d.err.class = "none"
 
 C05Holds(rec) ==
     /\ rec.err.class = "none"
-    /\ rec.ncfg = 256
-    /\ rec.nsame + Len(rec.rt) + Len(rec.perr) = 256
+    /\ rec.ncfg = rec.want                  \* 256, or the sample of configurations asked for (quick tier, additional programs)
+    /\ rec.nsame + Len(rec.rt) + Len(rec.perr) = rec.want
     /\ rec.perr = <<>>
     /\ \A i \in 1..Len(rec.rt) : RoundTrip(rec.sk, rec.rt[i])
 
@@ -61,8 +61,9 @@ C05Holds(rec) ==
 (***************************************************************************)
 C18Holds(rec) ==
     /\ rec.err.class = "none"
-    /\ rec.ncfg = 256
+    /\ rec.ncfg = rec.want
     /\ rec.idem_bad = <<>>
+    /\ \A i \in 1..Len(rec.rt) : rec.rt[i].err.class = "none"    \* the fix-point exists: every output parses again
     /\ rec.det_bad = <<>>
     /\ rec.pure_bad = <<>>
     /\ rec.perr = <<>>
